@@ -137,16 +137,14 @@ Proof.
   assert (E : beq K_XFF k = false) by (apply beq_false_iff; congruence). rewrite E. reflexivity.
 Qed.
 
-Definition first_conn_tokens (h : hdr) : list bytes := conn_tokens (hget h K_CONNECTION).
-
-(* the tokens the request loop deletes are the tokens of ALL Connection lines (the spec's notion) *)
-Lemma req_conn_tokens_all h : req_conn_tokens h = all_conn_tokens h.
-Proof. unfold req_conn_tokens, conn_values, all_conn_tokens. destruct (hlookup h K_CONNECTION); reflexivity. Qed.
+(* the tokens the request and response loops delete are the tokens of ALL Connection lines (the spec's notion) *)
+Lemma listed_conn_tokens_all h : listed_conn_tokens h = all_conn_tokens h.
+Proof. unfold listed_conn_tokens, conn_values, all_conn_tokens. destruct (hlookup h K_CONNECTION); reflexivity. Qed.
 
 Lemma strip_conn_listed_lookup h k :
   hlookup (strip_conn_listed h) k =
   if existsb (fun t => beq (canon_key t) k) (all_conn_tokens h) then None else hlookup h k.
-Proof. unfold strip_conn_listed. rewrite hlookup_fold_hdel, req_conn_tokens_all. reflexivity. Qed.
+Proof. unfold strip_conn_listed. rewrite hlookup_fold_hdel, listed_conn_tokens_all. reflexivity. Qed.
 
 (* every header named in ANY Connection line is removed *)
 Lemma conn_listed_removed h remote tok :
@@ -470,9 +468,9 @@ Qed.
 Lemma resp_strip_lookup h k :
   hlookup (resp_strip h) k =
   if existsb (fun t => beq (canon_key t) k) gen_hop_headers then None
-  else if existsb (fun t => beq (canon_key t) k) (first_conn_tokens h) then None
+  else if existsb (fun t => beq (canon_key t) k) (all_conn_tokens h) then None
   else hlookup h k.
-Proof. unfold resp_strip. rewrite !hlookup_fold_hdel. reflexivity. Qed.
+Proof. unfold resp_strip. rewrite !hlookup_fold_hdel, listed_conn_tokens_all. reflexivity. Qed.
 
 Lemma resp_hop_removed h k : In k gen_hop_headers -> hlookup (resp_strip h) k = None.
 Proof.
@@ -483,23 +481,23 @@ Proof.
 Qed.
 
 Lemma resp_conn_listed_removed h tok :
-  In tok (first_conn_tokens h) -> hlookup (resp_strip h) (canon_key tok) = None.
+  In tok (all_conn_tokens h) -> hlookup (resp_strip h) (canon_key tok) = None.
 Proof.
   intros H. rewrite resp_strip_lookup. destruct (existsb _ gen_hop_headers); [reflexivity|].
-  assert (E : existsb (fun t => beq (canon_key t) (canon_key tok)) (first_conn_tokens h) = true).
+  assert (E : existsb (fun t => beq (canon_key t) (canon_key tok)) (all_conn_tokens h) = true).
   { apply existsb_exists. exists tok. split; [exact H|apply beq_refl]. }
   rewrite E. reflexivity.
 Qed.
 
 Lemma resp_e2e_preserved h k :
-  ~ In k gen_hop_headers -> (forall tok, In tok (first_conn_tokens h) -> canon_key tok <> k) ->
+  ~ In k gen_hop_headers -> (forall tok, In tok (all_conn_tokens h) -> canon_key tok <> k) ->
   hlookup (resp_strip h) k = hlookup h k.
 Proof.
   intros H1 H2. rewrite resp_strip_lookup.
   destruct (existsb _ gen_hop_headers) eqn:E1.
   - apply existsb_exists in E1. destruct E1 as [t [Ht Et]]. apply beq_eq in Et.
     exfalso. apply H1. rewrite <- Et, (gen_hop_canon t Ht). exact Ht.
-  - destruct (existsb _ (first_conn_tokens h)) eqn:E2; [|reflexivity].
+  - destruct (existsb _ (all_conn_tokens h)) eqn:E2; [|reflexivity].
     apply existsb_exists in E2. destruct E2 as [t [Ht Et]]. apply beq_eq in Et.
     exfalso. exact (H2 t Ht Et).
 Qed.
@@ -594,10 +592,20 @@ Lemma second_connection_line_removed :
   hlookup (create_upstream_headers (bs "192.0.2.7:4711"%string) wit_h2) (bs "X-Secret"%string) = None.
 Proof. vm_compute. tauto. Qed.
 
-Lemma response_second_connection_line_refuted :
-  exists h tok, In tok (all_conn_tokens h) /\ hlookup (resp_strip h) (canon_key tok) = Some [bs "v1"%string].
+(* the witness of the former finding F-C04-3 (response header named in a second Connection line): removed now *)
+Lemma response_second_connection_line_removed :
+  In (bs "X-Secret"%string) (all_conn_tokens wit_h2) /\ hlookup wit_h2 (bs "X-Secret"%string) = Some [bs "v1"%string] /\
+  hlookup (resp_strip wit_h2) (bs "X-Secret"%string) = None.
+Proof. vm_compute. tauto. Qed.
+
+(* in the spec's own terms: no hop-by-hop header of the backend response (RFC list or named in any
+   Connection line) survives *)
+Lemma resp_is_hop_for_removed h k : is_hop_for h k = true -> hlookup (resp_strip h) k = None.
 Proof.
-  exists wit_h2, (bs "X-Secret"%string). split; [vm_compute; tauto|vm_compute; reflexivity].
+  intros E. unfold is_hop_for in E. apply orb_true_iff in E. destruct E as [E|E].
+  - apply resp_hop_removed. apply spec_hop_in_gen. exact E.
+  - apply existsb_exists in E. destruct E as [tok [HIn E]]. apply beq_eq in E. subst k.
+    apply resp_conn_listed_removed. exact HIn.
 Qed.
 
 Definition wit_t : target := {| t_host := bs "h0.test"%string; t_path := bs "/base"%string; t_rawpath := []; t_query := bs "tq=1"%string; t_auth := None |}.
